@@ -90,6 +90,14 @@ CHECKS = {
     ),
 }
 
+CHECKS["C15"] = dict(
+    engine="enum+bfs",
+    technique="exhaustive enumeration of recursively generated values per serializer x thresholds x cache options x stores through the real submit/worker-read and result paths; BFS over data-store operation histories against a content-addressed model; all spellings / all pairs of argument dicts with the SHA-256 pre-image captured",
+    text="Values: 11k-15k values per serializer (atoms incl. float/unicode edge cases, enums, exceptions, JsonSerializable; lists/dicts to depth 2, width 2) x min_size_to_cache {1, L-1, L, L+1, 1024} x data store on/off x disable_cache_args {(), (x), (*)} x {memory, SQLite}: task(x=v) -> worker-side get_invocation(...).arguments.kwargs with a cold cache (second app object for SQLite) and set_result/get_result, type-/NaN-/signed-zero-aware equality, externalised exactly when documented, reference<->content bijection. Store histories: BFS to depth 4 (5) over serialize/resolve/mutate returned/mutate original/purge/cold. Identity: every spelling of f(a,b=1,*,c=2), g(x), h() incl. LazyCall read-back and parallelize with every common_args split => one call id; all pairs and insertion orders of 4096 (32768) adversarial argument dicts: pre-images equal <=> dicts equal, ids equal <=> pre-images equal.",
+    note="SHA-256 trusted. Per-serializer domains stated in the evidence assumptions (tuples / non-str keys outside plain JSON). Quick uses reduced SQLite value lists. Four recorded findings: reference-prefix strings (D1, two paths) and LRU aliasing (D2, two aliases); a violating store history is not extended.",
+    design_ref="§2 C15",
+)
+
 NOT_YET = "check not built yet in this session (planned, see DESIGN.md §2)"
 
 
